@@ -63,6 +63,7 @@ pub struct Vec<T> { pub a: [TokenStream; TCAP], pub n: usize, _p: core::marker::
 impl Vec<TokenStream> {
     pub fn new() -> Self { Vec { a: [tk(T_TY, 0, 0); TCAP], n: 0, _p: core::marker::PhantomData } }
     pub fn push(&mut self, t: TokenStream) { assert!(self.n < TCAP, "stub Vec capacity"); self.a[self.n] = t; self.n += 1; }
+    pub fn is_empty(&self) -> bool { self.n == 0 } pub fn len(&self) -> usize { self.n }
     pub fn insert(&mut self, at: usize, t: TokenStream) { assert!(at == 0 && self.n < TCAP); let mut i = TCAP - 1; while i > 0 { self.a[i] = self.a[i - 1]; i -= 1; } self.a[0] = t; self.n += 1; }
     pub fn extend(&mut self, o: Vec<TokenStream>) { let mut i = 0; while i < TCAP { if i < o.n { self.push(o.a[i]); } i += 1; } }
 }
@@ -100,14 +101,18 @@ pub enum TypeKind {
 }
 #[derive(Clone, Copy)] pub struct Type { pub kind: TypeKind }
 impl Type { pub fn kind(&self) -> &TypeKind { &self.kind } pub fn canonical_type<'a>(&'a self, _: &'a BindgenContext) -> &'a Type { self } }
-#[derive(Clone, Copy)] pub struct ItemData { pub id: ItemId, pub ty: Option<Type>, pub allowlisted: bool, pub tp_in_array: bool }
+#[derive(Clone, Copy)] pub struct ItemData { pub id: ItemId, pub ty: Option<Type>, pub allowlisted: bool, pub tp_in_array: bool, pub no_debug: bool, pub disallow_debug: bool }
+#[derive(Clone, Copy)] pub struct Annotations { pub disallow_debug: bool } impl Annotations { pub fn disallow_debug(&self) -> bool { self.disallow_debug } }
+pub trait HasData { fn data(&self) -> &ItemData; }
 pub trait HasTypeParamInArray {} pub trait IsOpaque {} pub trait ItemCanonicalName {} pub trait FieldMethods {}
 macro_rules! item_level { ($($n:ident)*) => { $(
     #[derive(Clone, Copy)] pub struct $n(pub ItemData);
     impl $n {
         pub fn id(&self) -> ItemId { self.0.id } pub fn as_type(&self) -> Option<&Type> { self.0.ty.as_ref() } pub fn expect_type(&self) -> &Type { self.0.ty.as_ref().expect("not a type") }
         pub fn has_type_param_in_array(&self, _: &BindgenContext) -> bool { self.0.tp_in_array }
-    } )* } }
+        pub fn annotations(&self) -> Annotations { Annotations { disallow_debug: self.0.disallow_debug } }
+    }
+    impl HasData for $n { fn data(&self) -> &ItemData { &self.0 } } )* } }
 item_level!(ItemL0 ItemL1 ItemL2 ItemL3);
 /// the composite's own item
 pub struct Item { pub opaque: bool }
@@ -128,6 +133,7 @@ impl BindgenContext {
     pub fn resolve_l2(&self, t: TypeId) -> &ItemL2 { assert!(t.0 % 10 == 2); &self.l2[t.0 / 10] }
     pub fn resolve_l3(&self, t: TypeId) -> &ItemL3 { kani::assume(false); unreachable!() }   // bound: at most two alias hops
     pub fn resolve_type(&self, _: TypeId) -> &Type { &self.pointee }
+    pub fn no_debug_by_name<I: HasData>(&self, i: &I) -> bool { i.data().no_debug }
 }
 #[derive(Clone, Copy)] pub struct FieldData { pub name: Option<&'static str>, pub ty: TypeId }
 impl FieldData { pub fn name(&self) -> Option<&str> { self.name } pub fn ty(&self) -> TypeId { self.ty } }
@@ -189,7 +195,7 @@ mod proofs {
     }
     fn any_item(hop: usize, f: usize, always_type: bool) -> ItemData {
         let is_type: bool = kani::any(); kani::assume(is_type || !always_type);
-        ItemData { id: ItemId(10 * f + hop), ty: if is_type { Some(Type { kind: any_kind(hop, f) }) } else { None }, allowlisted: kani::any(), tp_in_array: kani::any() }
+        ItemData { id: ItemId(10 * f + hop), ty: if is_type { Some(Type { kind: any_kind(hop, f) }) } else { None }, allowlisted: kani::any(), tp_in_array: kani::any(), no_debug: kani::any(), disallow_debug: kani::any() }
     }
     fn any_ctx(always_type: bool) -> BindgenContext {
         let l0 = [ItemL0(any_item(0, 0, always_type)), ItemL0(any_item(0, 1, always_type)), ItemL0(any_item(0, 2, always_type))];
@@ -221,14 +227,28 @@ mod proofs {
         }
         kani::assume(false); None
     }
-    /// specification: does the generated Debug body pass member `f` to `{:?}`?  (the member's type must implement Debug and be known to)
+    /// specification: does the generated Debug body pass member `f` to `{:?}`?  The member's type must implement Debug and be known to: every item on
+    /// the way (through aliases, and for arrays / vectors the element) is allowlisted (the user's own definition of a blocklisted type promises nothing)
+    /// and not excluded from Debug by --no-debug or a nodebug annotation; the final kind can be printed.
     fn debug_prints(ctx: &BindgenContext, f: usize) -> bool {
-        match resolved(ctx, f, true) { None => false, Some(it) => match it.ty.unwrap().kind {
-            TypeKind::Opaque | TypeKind::TypeParam => false,
-            TypeKind::TemplateInstantiation(i) => !i.opaque,
-            TypeKind::Array(..) => !it.tp_in_array,
-            TypeKind::Pointer(_) => match ctx.pointee.kind { TypeKind::Function(s) => s.can_derive, _ => true },
-            _ => true } }
+        let chain = [&ctx.l0[f].0, &ctx.l1[f].0, &ctx.l2[f].0]; let mut h = 0;
+        while h < 3 {
+            let it = chain[h];
+            if !it.allowlisted { return false; }
+            let t = match it.ty { None => return false, Some(t) => t };
+            match t.kind {
+                TypeKind::Alias(_) | TypeKind::TemplateAlias(..) | TypeKind::ResolvedTypeRef(_) | TypeKind::BlockPointer(_) => {}
+                TypeKind::Array(..) => { if it.tp_in_array { return false; } }      // .. and the element decides
+                TypeKind::Vector(..) => return true,      // an array of an arithmetic type
+                TypeKind::Opaque | TypeKind::TypeParam => return false,
+                TypeKind::TemplateInstantiation(i) => return !i.opaque,
+                TypeKind::Pointer(_) => return match ctx.pointee.kind { TypeKind::Function(s) => s.can_derive, _ => true },
+                TypeKind::Comp(..) | TypeKind::Enum(..) => return !(it.no_debug || it.disallow_debug),
+                _ => return true,
+            }
+            h += 1;
+        }
+        kani::assume(false); false
     }
     /// number of `{..}` placeholders of the format string, None if it is not a valid format string
     fn placeholders(s: &String) -> Option<usize> { let t = s.t[0]; if t.bad || t.end != 0 { None } else { Some(t.count as usize) } }
